@@ -262,7 +262,7 @@ def choose_filters(rng, sc, want):
             args += ["--too-long-output", "tl1.fq"] + (["--too-long-paired-output", "tl2.fq"] if two_files else [])
     if rng.random() < 0.4 * scale:
         ncounts = sorted({R.n_count(r["seq"]) for r in b1})
-        v = rng.choice([str(rng.choice(ncounts)), "0", "1", "2", "0.1", "0.25", "0.5"])
+        v = rng.choice([str(rng.choice(ncounts)), "0", "1", "2", "0.1", "0.25", "0.5", "1.5", "2.5"])
         opts["max_n"] = v
         args += ["--max-n", v]
     if rng.random() < 0.4 * scale:
